@@ -705,6 +705,90 @@ func (rn *runner) evalShapes(s *proc.Server, w *world, rpName string, r *rand.Ra
 			sort.Strings(d)
 			out = append(out, shapeResult{name: "show-tag-values", diff: head(d, 5)})
 		}
+		// conditional listings: the tag values / series restricted by a condition on the OTHER
+		// tag take a different path through the index (an eligible-id set) than the plain ones
+		for _, cond := range [][2]string{{"region", "host"}, {"host", "region"}} {
+			ck, lk := cond[0], cond[1]
+			// fixed candidate values, whether or not a live series still carries them
+			cvs := []string{"x", "y"}
+			if ck == "host" {
+				cvs = []string{"a", "c", "f", "n"}
+			}
+			var d, ds []string
+			var qerr error
+			for _, cv := range cvs {
+				want := map[string]map[string]bool{}
+				wantSe := map[string]bool{}
+				for _, mm := range w.rp {
+					for k, row := range mm.Rows {
+						tags := parseSeries(k.Series)
+						if len(row) == 0 || tags[ck] != cv {
+							continue
+						}
+						if want[k.Mst] == nil {
+							want[k.Mst] = map[string]bool{}
+						}
+						want[k.Mst][tags[lk]] = true
+						wantSe[k.Mst+","+k.Series] = true
+					}
+				}
+				res, err := s.Query(db, fmt.Sprintf("SHOW TAG VALUES WITH KEY = %s WHERE %s = '%s'", lk, ck, cv), nil)
+				if err != nil && !isMissing(err) {
+					qerr = err
+					continue
+				}
+				got := map[string]map[string]bool{}
+				if res != nil && len(res.Results) > 0 {
+					for _, se := range res.Results[0].Series {
+						if got[se.Name] == nil {
+							got[se.Name] = map[string]bool{}
+						}
+						for _, row := range se.Values {
+							got[se.Name][fmt.Sprint(row[1])] = true
+						}
+					}
+				}
+				for _, mst := range allMsts {
+					for h := range want[mst] {
+						if !got[mst][h] {
+							d = append(d, fmt.Sprintf("SHOW TAG VALUES WHERE %s='%s' misses %s %s=%s", ck, cv, mst, lk, h))
+						}
+					}
+					for h := range got[mst] {
+						if !want[mst][h] {
+							d = append(d, fmt.Sprintf("SHOW TAG VALUES WHERE %s='%s' lists dropped %s %s=%s", ck, cv, mst, lk, h))
+						}
+					}
+				}
+				res, err = s.Query(db, fmt.Sprintf("SHOW SERIES WHERE %s = '%s'", ck, cv), nil)
+				if err != nil && !isMissing(err) {
+					qerr = err
+					continue
+				}
+				gotSe := map[string]bool{}
+				if res != nil && len(res.Results) > 0 {
+					for _, se := range res.Results[0].Series {
+						for _, row := range se.Values {
+							gotSe[fmt.Sprint(row[0])] = true
+						}
+					}
+				}
+				for k := range wantSe {
+					if !gotSe[k] {
+						ds = append(ds, fmt.Sprintf("SHOW SERIES WHERE %s='%s' misses %s", ck, cv, k))
+					}
+				}
+				for k := range gotSe {
+					if !wantSe[k] {
+						ds = append(ds, fmt.Sprintf("SHOW SERIES WHERE %s='%s' lists dropped/unknown %s", ck, cv, k))
+					}
+				}
+			}
+			sort.Strings(d)
+			sort.Strings(ds)
+			out = append(out, shapeResult{name: "show-tag-values-where-" + ck, diff: head(d, 5), err: qerr})
+			out = append(out, shapeResult{name: "show-series-where-" + ck, diff: head(ds, 5), err: qerr})
+		}
 		res, err = s.Query(db, "SHOW TAG KEYS", nil)
 		if err != nil && !isMissing(err) {
 			out = append(out, shapeResult{name: "show-tag-keys", err: err})
